@@ -3,8 +3,8 @@
 Require Extraction.
 Require Import ExtrOcamlBasic.
 From Coq Require Import ZArith List.
-From LasV Require Import Lib.Base Gen.GenCursor Model.Cursor Model.CursorBytes.
+From LasV Require Import Lib.Base Gen.GenCursor Model.Cursor Model.CursorBytes Model.CursorFault.
 Extraction Language OCaml.
 Extraction "../ocaml/c05/model.ml"
   Z.add Z.mul Z.sub Z.div_eucl Z.compare Z.of_nat Z.to_nat
-  crun srun brun.
+  crun srun brun frun sfrun bfrun.
